@@ -1,4 +1,5 @@
 #![allow(dead_code, unused_imports, unused_variables)]
+mod c16;
 mod kzg;
 mod pc;
 mod proto;
@@ -53,6 +54,7 @@ fn main() {
                 let r = std::panic::catch_unwind(std::panic::AssertUnwindSafe(|| match c.kind.as_str() {
                     "kzg10" => kzg::run(&c, &mut out),
                     "pc" => schemes::run(&c, &mut out),
+                    "c16" => c16::run(&c, &mut out),
                     k => panic!("unknown case kind {}", k),
                 }));
                 writeln!(o, "case {}", c.id).unwrap();
